@@ -45,7 +45,10 @@ def classify(symname):
             return "ABC"[int(mm.group(1))], {"kind": "pump-coeff"}
         mm = re.match(r"^(?:wn\.get_(?:link|node)\(\w+\)|link|node)\.(\w+)$", symname)
         if mm:
-            return mm.group(1), {"kind": "attr"}
+            return mm.group(1), {"kind": "attr", "src": "element"}
+        mm = re.match(r"^wn\.options\.(\w+)\.(\w+)$", symname)
+        if mm:
+            return mm.group(2), {"kind": "attr", "src": "options." + mm.group(1)}
         return None, {}
     name, key = m.group(1), m.group(2)
     if name == "flow" and key is not None and not key.endswith("node_name"):
